@@ -93,6 +93,25 @@ theorem http_read_eq_local_read_all (file : Bytes) (offset length : Nat)
   · rw [if_neg hl]
     exact (http_read_eq_local_read file offset length (Nat.pos_of_ne_zero hl)).1 h
 
+/-- … so the two shard readers agree on EVERY request, present bytes or not: same bytes or both
+    an I/O error (the local reader refuses short reads since the repair of F34) -/
+theorem http_read_eq_file_read (file : Bytes) (offset length : Nat) :
+    httpRead file offset length = fileRead file offset length := by
+  by_cases h : offset + length ≤ file.length
+  · rw [http_read_eq_local_read_all file offset length h]
+    have : (localRead file offset length).length = length := by
+      simp only [localRead, List.length_take, List.length_drop]; omega
+    simp [fileRead, this]
+  · by_cases hz : length = 0
+    · subst hz
+      simp [httpRead, fileRead, localRead]
+    have hl : 0 < length := by omega
+    have hne : length ≠ 0 := hz
+    have h2 : (localRead file offset length).length ≠ length := by
+      simp only [localRead, List.length_take, List.length_drop]; omega
+    unfold httpRead fileRead
+    rw [if_neg hne, (http_read_eq_local_read file offset length hl).2 (by omega), if_pos h2]
+
 /-- legacy `.index` + `.data` pairs: a request that does not straddle the header boundary reads
     the same bytes from the split files as from the single-file layout -/
 theorem legacy_split_reads_same (idx data : Bytes) (offset length : Nat)
